@@ -222,7 +222,18 @@ impl Generator {
 
             // NextBuffer/ReadOnlyBuffer require out-of-band buffer support
             // allow only if explicitly enabled via with_buffer_opcodes()
-            NextBuffer | ReadOnlyBuffer => self.allow_buffer_opcodes,
+            NextBuffer => self.allow_buffer_opcodes,
+            // READONLY_BUFFER replaces the bytes-like object on top of the stack by a
+            // read-only view of it, so it needs such an operand (never an empty stack or a MARK)
+            ReadOnlyBuffer => {
+                self.allow_buffer_opcodes
+                    && self.peek().is_some_and(|obj| {
+                        matches!(
+                            *obj.borrow(),
+                            StackObject::Bytes(_) | StackObject::ByteArray(_)
+                        )
+                    })
+            }
 
             // frame: handled specially after generation is complete
             Frame => false, // don't emit during generation, will be inserted at the end if needed
